@@ -4,8 +4,8 @@ from props.common import *   # noqa
 from engine import conc
 from props.C07 import fold
 
-W_ARGS = dict(pids=["a", "b"], contents=[b"x"], formats=[None, "c"], fake_cid=False,
-              docs=[b"<v0/>", b"<v1/>0123456789"])
+W_ARGS = dict(pids=["a", "b"], contents=[C_ONE], formats=[None, "c"], fake_cid=False,
+              docs=[D_ONE, D_MULTI15])
 
 INITS = [
     ("no document", {}),
@@ -37,6 +37,13 @@ def scenarios_for(tier, triples=False):
             # (the condition is shared by all documents: a waiter must re-check after it is woken)
             calls = [step.StoreMeta(0, 0, "c"), step.StoreMeta(0, 1, "c"), step.StoreMeta(0, 1, None)]
             out.append(("%s || from: %s" % (" || ".join(c.label for c in calls), INITS[1][0]), INITS[1][1], calls))
+            # the same for the two other places that wait for a document: delete_metadata of one format (two
+            # deleters of one document, a writer of another document releases in between) and delete_metadata of
+            # all formats (a writer holds one of the documents, a writer of another pid's document releases)
+            calls = [step.DeleteMeta(0, "c"), step.DeleteMeta(0, "c"), step.StoreMeta(0, 1, None)]
+            out.append(("%s || from: %s" % (" || ".join(c.label for c in calls), INITS[2][0]), INITS[2][1], calls))
+            calls = [step.StoreMeta(0, 1, "c"), step.DeleteMeta(0, None, all_docs=True), step.StoreMeta(1, 0, "c")]
+            out.append(("%s || from: %s" % (" || ".join(c.label for c in calls), INITS[2][0]), INITS[2][1], calls))
         return out
     return fn
 
